@@ -7,6 +7,7 @@ changes nothing outside that option's footprint. Unparseable inputs must come ba
 """
 import itertools
 import re
+from urllib.parse import urlsplit
 
 from vf.monitor import Probes
 from vf.ref.urlread import R, clean, Unparseable, dec, host_canon
@@ -248,6 +249,15 @@ def judge(ctx, fn, infer, strip_item, u, opts, extra=None, count=True):
             if rout["scheme"] != rin["scheme"]:
                 flag("scheme:changed", (rin["scheme"], rout["scheme"]))
     judge_deletion = not (extra.get("platform_aware") and platform_host(rin["host"]))
+    # the host as WRITTEN in the result is lower-cased and IDNA-decoded, label by label (the reader above compares up to that spelling)
+    try:
+        written = urlsplit(o_url).netloc.rpartition("@")[2]
+        written = written[: written.rindex("]") + 1] if written.startswith("[") else written.partition(":")[0]
+        ctx.count("host-spelling-judged")
+        if not extra.get("quoted") and written != host_canon(written):
+            flag("host:not-lower-cased-or-not-idna-decoded", (written, host_canon(written)))
+    except ValueError:
+        pass
     if judge_deletion:
         # host
         ok, dropped, prefix = host_ok(rin["host"], rout["host"], opts)
@@ -412,6 +422,7 @@ DIRECTED = [
     "http://example.com/x?source=twit&platform=suite&mode=&output=am&fromref=twitt&sns=t&_ss=&marfeeltn=mp&platform&mode&ref=twitterx&ref=&ref&s=123&s=ab&s=&s&m=2&m=&spref=x&outputtype=am&outputType=amp",
     "http://example.com/x?si=abc&t=42&ab_channel=z&_rdr=1&_rdc=2&cbrd=1&ucbcb=1", "http://notyoutube.com.example.org/watch?v=aBcDeFgHiJk&t=42&si=x", "https://www.youtube.com/results?search_query=cats&t=42&si=x&hl=fr",
     "https://www.facebook.com/x/y?_rdr=1&t=42", "http://example.com/x?amp&amp_js_v=0.1&amp=1&AMP_x=2&usqp=mq&id=1",
+    "http://bücher.xn--p1ai/x", "http://xn--bcher-kva.рф/x?a=1", "http://WWW.Bücher.XN--P1AI/x", "http://blog.xn--bcher-kva.de/", "http://amp-news.xn--tlrama-bvab.fr/a",
     "http://example.com/a/index.tar.gz", "http://example.com/a/default.min.js", "http://example.com/a/index.foo.bar/", "http://example.com/a/.index", "http://example.com/a/index.", "http://example.com/?id=&id&ID=1&Id=2", "http://example.com/?q=a+b&q=a%20b&%71=c",
 ]
 UNPARSEABLE = ["", " ", "http://", "/rel", "?q", "#f", "http://a.com:abc/", "http://a.com:99999/", "http://[::1", "]", "https://ohioamf.org]", "http://[x]/", "a.com:port", "\x00", "http:///x", "://",
